@@ -18,7 +18,7 @@
 (*   Child(node, idx, il)  = ckd.DeriveChildKey(index, pk, curve)           *)
 (*   Init/Step/Finish      = the loop of ckd.DeriveChildKeyFromHierarchy    *)
 (*   Ser/Parse             = ExtendedKey.String / NewExtendedKeyFromString  *)
-(*   AdjustedShares, AdjustedBigXj = round_1.prepare (x_i + delta) and      *)
+(*   KddConsistent         = round_1.prepare (x_i + delta) and              *)
 (*                           UpdatePublicKeyAndAdjustBigXj (X_j + delta*G)  *)
 (*                                                                          *)
 (* Deliberate deviations of the CODE from the BIP32 text that the model     *)
@@ -86,13 +86,13 @@ Parse(s) == Node(s[2], Parse32(s[4]), s[6], s[5], s[3], s[1])
 
 -----------------------------------------------------------------------------
 (* ckd.DeriveChildKeyFromHierarchy(path, pk, mod, curve)                     *)
-VARIABLES root, cur, ils, offset, status, why, result, hist
-vars == <<root, cur, ils, offset, status, why, result, hist>>
+VARIABLES root, cur, ils, offset, status, cause, result, hist
+vars == <<root, cur, ils, offset, status, cause, result, hist>>
 
 Init ==
   /\ \E d \in StartDepths, k \in RootKeys : root = Node(d, <<0, 0>>, k, <<>>, 0, "xpub")
   /\ cur = root /\ ils = <<>> /\ offset = 0
-  /\ status = "run" /\ why = "" /\ result = <<>> /\ hist = <<>>
+  /\ status = "run" /\ cause = "" /\ result = <<>> /\ hist = <<>>
 
 (* one iteration of the loop: the next index of the path, and what the HMAC yields for it *)
 Step(idx, il) ==
@@ -106,8 +106,8 @@ Step(idx, il) ==
                 /\ offset' = Add(c.il, offset)            \* ilNum = mod_.Add(ilNum, ilNumOld)
                 /\ hist' = Append(hist, [hi |-> idx[1], lo |-> idx[2], il |-> cl, ok |-> TRUE, why |-> "",
                                          depth |-> c.node.depth])
-                /\ UNCHANGED <<status, why, result>>
-           ELSE /\ status' = "refused" /\ why' = c.why    \* return nil, nil, err
+                /\ UNCHANGED <<status, cause, result>>
+           ELSE /\ status' = "refused" /\ cause' = c.why    \* return nil, nil, err
                 /\ hist' = Append(hist, [hi |-> idx[1], lo |-> idx[2], il |-> cl, ok |-> FALSE, why |-> c.why,
                                          depth |-> cur.depth])
                 /\ UNCHANGED <<cur, ils, offset, result>>
@@ -118,7 +118,7 @@ Finish ==
   /\ status = "run"
   /\ status' = "done"
   /\ result' = <<[offset |-> offset, node |-> cur]>>
-  /\ UNCHANGED <<root, cur, ils, offset, why, hist>>
+  /\ UNCHANGED <<root, cur, ils, offset, cause, hist>>
 
 Terminal == status # "run"
 Next == (\E idx \in Indices, il \in ILs : Step(idx, il)) \/ Finish \/ (Terminal /\ UNCHANGED vars)
@@ -153,9 +153,9 @@ Refusals ==
        /\ result = <<>>
        /\ LET last == hist[Len(hist)] IN
             /\ ~last.ok
-            /\ why \in {"hardened", "depth", "il_ge", "il_zero", "identity"}
-            /\ why = "hardened" <=> last.hi >= HardenedStartHi
-            /\ (why = "depth") => cur.depth = MaxDepth
+            /\ cause \in {"hardened", "depth", "il_ge", "il_zero", "identity"}
+            /\ cause = "hardened" <=> last.hi >= HardenedStartHi
+            /\ (cause = "depth") => cur.depth = MaxDepth
             /\ \A k \in 1..(Len(hist) - 1) : hist[k].ok
   /\ status = "done" => /\ result = <<[offset |-> offset, node |-> cur]>>
                         /\ \A k \in 1..Len(hist) : hist[k].ok
@@ -189,7 +189,7 @@ AbstractionSound ==
   Terminal =>
     LET p == Predict(root.depth, hist, 0) IN
       /\ p.outcome = status
-      /\ p.why = why
+      /\ p.why = cause
       /\ status = "done" => p.nsum = Len(ils) /\ p.depth = cur.depth
       /\ status = "refused" => p.at = Len(hist)
 
@@ -222,7 +222,7 @@ ASSUME KddConsistent
 
 -----------------------------------------------------------------------------
 (* catalogue generation (-workers 1): one row per terminal state            *)
-Row == [start_depth |-> root.depth, steps |-> hist, outcome |-> status, why |-> why,
+Row == [start_depth |-> root.depth, steps |-> hist, outcome |-> status, why |-> cause,
         refused_at |-> IF status = "refused" THEN Len(hist) ELSE 0,
         nsum |-> Len(ils), final_depth |-> cur.depth, final_hi |-> cur.idx[1], final_lo |-> cur.idx[2],
         toy |-> [q |-> Q, root |-> root.key, ils |-> ils, offset |-> offset, key |-> cur.key]]
